@@ -27,7 +27,7 @@ def check(ctx):
         "get_variable_bounds; linprog recorded and replayed into model/Poly.v poly_optimize (compared exactly inside Coq); "
         "the answer compared with an exact rational LP (optimum within 1e-6 relative, None iff unbounded, ValueError iff "
         "infeasible), certificates re-checked by base/Farkas.v. non-trivial = every case; distinct by canonical input")
-    proved = ctx.prove("props/C12.v", ["proofs/PolyFacts.v", "proofs/WrapGenBounds.v"])
+    proved = ctx.prove("props/C12.v", ["proofs/PolyFacts.v", "proofs/WrapGenBounds.v", "proofs/PolyGenOptimize.v"])
     ctx.build(["model/PolyDomain.vo", "base/Farkas.vo"])
     rng = random.Random(ctx.seed + 12)
     n = (200 if ctx.quick else 30000) * (1 if proved else 3)
